@@ -22,7 +22,8 @@ def fld(q, base=THIS):
 
 
 def rw_facts(facts):
-    _, rw = canon([f for f in facts if f[0] == "=="])
+    from pv.entail import derived_equalities
+    _, rw = canon([f for f in derived_equalities(facts) if f[0] == "=="])
     return rw
 
 
@@ -441,7 +442,7 @@ def check_prepare(rule, walkrule, db, cfgname, OWNER, PARTCLS, LEFT, RIGHT):
         raise AnalysisBroken(OWNER.split("::")[-1] + "::prepare: expected one new part")
     N = news[0]
     fa = gat.get(g.cfg.pos1(N), frozenset())
-    _, rw = canon([x for x in fa if x[0] == "=="])
+    rw = rw_facts(fa)
     nk = gctx.key(N)
     args = [rw(strip_cast(a)) for a in nk[2][2:]]
     Cm, CXm = fld(OWNER + "::" + LEFT), fld(OWNER + "::" + RIGHT)
@@ -542,39 +543,70 @@ def check_prepare(rule, walkrule, db, cfgname, OWNER, PARTCLS, LEFT, RIGHT):
 
 
 def check_block_walk(rule, g, gctx, gat, cfgname, name, N):
-    """a++ only under ka <= kb, b++ only under ka >= kb, match under ka == kb (block level)"""
+    """sorted merge join over two bimap views (block level), decided per path through one iteration:
+       key(a) <  key(b): only a advances;  key(a) > key(b): only b advances;  equal keys: both advance.
+       Written as  `if (ka <= kb) a++; if (ka >= kb) b++;`  or as a three-way split with `continue` - any form."""
+    from pv import paths as P
     site = name + ":walk"
-    incs = []
+    incs = {}
     for j, n in g.walk(g.body):
-        if n["k"] == "call" and n["ck"] == "op" and n.get("op") == "++":
-            d = g.nodes[n["args"][0]]
-            if d["k"] == "ref":
-                incs.append((j, d["d"], d["n"]))
-    if len(incs) < 2:
-        raise AnalysisBroken("%s: expected two iterator increments, found %d" % (name, len(incs)))
-    by_it = {}
-    unguarded = []
+        if (n["k"] == "call" and n["ck"] == "op" and n.get("op") == "++") or (n["k"] == "un" and n["op"] == "++"):
+            d = g.nodes[n["args"][0] if n["k"] == "call" else n["sub"]]
+            if d["k"] == "ref" and "iterator" in (d.get("t") or ""):
+                incs[j] = (d["d"], d["n"])
+    its = sorted({v for v in incs.values()})
+    if len(its) != 2:
+        raise AnalysisBroken("%s: expected increments of two iterators, found %s" % (name, [x[1] for x in its]))
+    loops = [L for L in enclosing_loops(g, list(incs)[0]) if all(L in enclosing_loops(g, j) for j in incs)]
+    if not loops:
+        raise AnalysisBroken("%s: the two iterators are not advanced inside one loop" % name)
+    L = loops[0]
+    hdr, plist = P.loop_body_paths(g, L)
+    if not plist:
+        raise AnalysisBroken("%s: no path through the walk loop" % name)
+    (da, na), (db_, nb) = its
+    va, vb = ("var", da, na), ("var", db_, nb)
+
+    def sortkey(v):
+        # the key the view is ordered by: ->first of the iterator
+        return [("field", q, ("op", "->", v)) for q in ("boost::bimaps::relation::detail::normal_storage::first", "boost::bimaps::relation::detail::mirror_storage::first", "std::pair::first")]
 
     def snap(k):
-        # a local holding a snapshot of an iterator's key (taken before the increments): use its initialiser
-        if k[0] == "var" and k[1] in gctx.decls and gctx.decls[k[1]].get("init") is not None and not gctx.mut.get(k[1]):
-            return gctx.key(gctx.decls[k[1]]["init"])
-        return k
-    for j, d, nm in incs:
-        fa = gat.get(g.cfg.pos1(j), frozenset())
-        fa = {(x[0], snap(x[1]), snap(x[2])) if x[0] in ("<", "<=", "==", "!=") else x for x in fa}
-        rel = [x for x in fa if x[0] == "<=" and key_contains(x[1], lambda y: y[0] == "var") and key_contains(x[2], lambda y: y[0] == "var")]
-        mine = [x for x in rel if key_contains(x[1], lambda y: y[:2] == ("var", d))]
-        if not mine:
-            unguarded.append(nm)
-        by_it.setdefault(d, []).extend(mine)
-    good = not unguarded and len(by_it) == 2
-    if good:
-        a_, b_ = list(by_it.values())
-        good = any(x[1] == y[2] and x[2] == y[1] for x in a_ for y in b_)
-    if good:
-        rule.ok(site, g.loc(), "one iterator advances under ka <= kb, the other under kb <= ka (both on equality): no block pair is skipped, every iteration progresses", cfgname)
+        def f_(x):
+            if x[0] == "var" and x[1] in gctx.decls and gctx.decls[x[1]].get("init") is not None and not gctx.mut.get(x[1]) and x[1] not in (da, db_):
+                return gctx.key(gctx.decls[x[1]]["init"])
+            return None
+        return key_subst(k, f_)
+    problems = []
+    nfeasible = 0
+    for path in plist:
+        fa = {(x[0], snap(x[1]), snap(x[2])) if x[0] in ("<", "<=", "==", "!=") else x for x in P.path_facts(g, gctx, path)}
+        if not P.feasible(fa):
+            continue
+        nfeasible += 1
+        ids = P.nodes_on_path(g, path[1:])
+        adv = [incs[j][0] for j in ids if j in incs]
+        rel = None
+        for ka in sortkey(va):
+            for kb in sortkey(vb):
+                rel = rel or P.relation(fa, ka, kb)
+        want = {"<": [da], ">": [db_], "==": sorted([da, db_])}.get(rel)
+        nm = {da: na, db_: nb}
+        if want is None:
+            if adv:
+                problems.append("on a path where the order of the two block keys is %s, %s advance(s)" % ("only known as " + rel if rel else "not tested", " and ".join(nm[d_] for d_ in adv)))
+            else:
+                problems.append("an iteration can finish without advancing either iterator (the walk stalls)")
+            continue
+        if rel == "==" and adv and set(adv) <= {da, db_}:
+            continue      # keys are unique in each bimap view: after a match advancing either iterator (or both) loses no pair
+        if sorted(adv) != want:
+            problems.append("when key(%s) %s key(%s) the walk advances %s instead of %s: %s" % (
+                na, rel, nb, " and ".join(nm[x] for x in adv) or "nothing", " and ".join(nm[x] for x in want),
+                "a block pair is skipped" if adv else "the walk stalls"))
+    if nfeasible == 0:
+        raise AnalysisBroken("%s: no feasible path through the walk loop" % name)
+    if problems:
+        rule.bad(site, g.loc(L), "; ".join(sorted(set(problems))[:2]), cfgname)
     else:
-        rule.bad(site, g.loc(), "the two block iterators are not advanced under complementary non-strict comparisons of their keys (a block pair can be skipped, or the walk stalls on equal keys)", cfgname)
-
-
+        rule.ok(site, g.loc(L), "merge join: on every feasible path the iterator with the smaller block key advances alone and at least one advances on equal keys (%d paths)" % nfeasible, cfgname)
